@@ -25,14 +25,24 @@ def main():
     for m in TABLE:
         if want and m["prop"] not in want:
             continue
-        path = os.path.join("/repo", m["file"])
-        src = open(path).read()
-        if m["old"] not in src:
-            results.append((m, "PATTERN-NOT-FOUND"))
-            print(f"{m['prop']} {m['name']}: PATTERN-NOT-FOUND")
-            continue
-        try:
+        if "revert_commit" in m:
+            c = m["revert_commit"]
+            d = subprocess.run(["git", "-C", "/repo", "diff", c + "~1", c], capture_output=True, text=True).stdout
+            ap = subprocess.run(["git", "-C", "/repo", "apply", "-R"], input=d, capture_output=True, text=True)
+            if ap.returncode != 0:
+                results.append((m, "REVERT-FAILED"))
+                print(f"{m['prop']} {m['name']}: REVERT-FAILED {ap.stderr[-200:]}")
+                subprocess.run(["git", "-C", "/repo", "checkout", "--", "."], check=True)
+                continue
+        else:
+            path = os.path.join("/repo", m["file"])
+            src = open(path).read()
+            if m["old"] not in src:
+                results.append((m, "PATTERN-NOT-FOUND"))
+                print(f"{m['prop']} {m['name']}: PATTERN-NOT-FOUND")
+                continue
             open(path, "w").write(src.replace(m["old"], m["new"], 1))
+        try:
             r = subprocess.run([os.path.join(HERE, "check"), m["prop"], "--tier", "quick"],
                                capture_output=True, text=True)
             keys = sorted({l.split("key=")[1].split(" ::")[0] for l in r.stdout.splitlines() if l.startswith("  key=")})
